@@ -73,6 +73,8 @@ class Closer(Protocol):
     def close(self) -> None: ...
 class GenP(Protocol[T_co]):
     def get(self) -> T_co: ...
+class SinkP(Protocol[T_contra]):
+    def put(self, x: T_contra) -> None: ...
 class GenPInv(Protocol[T]):
     def get(self) -> T: ...
     def put(self, x: T) -> None: ...
@@ -229,7 +231,8 @@ ATOMS: dict[str, str] = {
     "frozenset_B": "frozenset[B]", "Awaitable_A": "Awaitable[A]",
     # protocols
     "HasX": "HasX", "HasXY": "HasXY", "HasXro": "HasXro", "Closer": "Closer", "GenP_A": "GenP[A]", "GenP_B": "GenP[B]",
-    "GenPInv_A": "GenPInv[A]", "GenPInv_B": "GenPInv[B]", "RecP": "RecP", "RecQ": "RecQ", "CallP": "CallP",
+    "SinkP_A": "SinkP[A]", "SinkP_B": "SinkP[B]", "SinkP_D": "SinkP[D]", "SinkP_object": "SinkP[object]",
+    "GenP_object": "GenP[object]", "GenPInv_A": "GenPInv[A]", "GenPInv_B": "GenPInv[B]", "RecP": "RecP", "RecQ": "RecQ", "CallP": "CallP",
     "Empty": "Empty", "ImplX": "ImplX", "ImplXY": "ImplXY", "ImplXbool": "ImplXbool", "ImplClose": "ImplClose",
     "ImplRec": "ImplRec", "ImplRecQ": "ImplRecQ", "ImplCall": "ImplCall", "NominalX": "NominalX",
     # enums / literals
@@ -326,7 +329,7 @@ def _expr(r: random.Random, depth: int, tv: bool) -> str:
     if k == 6:
         return f"{r.choice(['dict', 'Mapping'])}[str, {sub()}]"
     if k == 7:
-        return f"GenP[{sub()}]"
+        return f"{r.choice(['GenP', 'SinkP'])}[{sub()}]"
     if k == 8:
         return f"CoSub[{sub()}]"
     if k in (9, 10):
